@@ -6,6 +6,7 @@
 -/
 import TornadoModel.Base.Wire
 import TornadoModel.C11.Spec
+import TornadoModel.C11.SpecClose
 namespace TornadoModel.C11.Drv
 open TornadoModel TornadoModel.Wire TornadoModel.C11
 
@@ -154,6 +155,21 @@ def handle (toks : List String) : String :=
       | some i => ok [.list [.atom "stalled", .int i]]
       | none => ok [.atom "T"]
     | none => err "bad-arg"
+  | ["ruc", comps, pends] =>
+    -- Spec.untilCloseOk on [[closedAfter, leftBehind],…] and Spec.untilCloseStalled on [closedNow,…]
+    let decC : V → Option (Bool × Nat) := fun v => do
+      match ← v.list? with
+      | [c, n] => pure (← c.bool?, ← n.nat?)
+      | _ => none
+    match V.parse comps >>= V.list? >>= (·.mapM decC), V.parse pends >>= V.list? >>= (·.mapM V.bool?) with
+    | some cs, some ps =>
+      match Spec.firstBadClose cs 0 with
+      | some i => ok [.list [.atom "early-or-partial", .int i]]
+      | none =>
+        match Spec.firstStalledClose ps 0 with
+        | some i => ok [.list [.atom "stalled", .int i]]
+        | none => ok [.atom "T"]
+    | _, _ => err "bad-arg"
   | ["search", rid, b] =>
     match V.parse rid >>= V.nat?, V.parse b >>= V.byteNats? with
     | some r, some b => ok [V.ofOpt (fun n => V.int (Int.ofNat n)) (stdR r b)]
